@@ -532,6 +532,11 @@ func (d *Driver) Apply(s Step) bool {
 				}
 			case "impossible":
 				minOut = est.MulRaw(2).AddRaw(1000)
+			case "plus01", "plus03", "plus1", "plus3": // a little more than the pool itself is estimated to pay (a bonus may or may not cover it)
+				k := map[string]int64{"plus01": 1, "plus03": 3, "plus1": 10, "plus3": 30}[s.S("limit")]
+				if est.IsPositive() {
+					minOut = est.Add(est.MulRaw(k).QuoRaw(1000)).AddRaw(1)
+				}
 			}
 			ev := newEvent("amm.MsgSwapExactAmountIn", user)
 			ev.Args["din"], ev.Args["ain"], ev.Args["dout"], ev.Args["minOut"], ev.Args["rcpt"] = din, amt.String(), dout, minOut.String(), rcpt
